@@ -1,6 +1,7 @@
 /-
   C04 model driver — line protocol (core Lean only).
-    T <fixed> ek ev ew ee ec ea eg es  dv dw de dc dg ds  ext     one `_defineOwnProperty` cell  → mechanism result ; spec verdict
+    T ek ev ew ee ec ea eg es  dv dw de dc dg ds  ext             one `_defineOwnProperty` cell  → mechanism result ; spec verdict
+    J <cell> <implementation result>                               → is it the transcription's result? + spec verdict of it
     N                                                              new op-sequence case (reset heap and monitor)
     mk <id> <kind> <proto>                                         create object
     def/set/get/del/has/hasown/pe/sp/frz/seal …                    spec-level ops  → result [+ dump of all objects]
@@ -33,7 +34,7 @@ def showStored : Option (Stored Nat) → String
 
 def tableCell (w : List String) : String :=
   match w.map toI with
-  | [fx, ek, ev, ew, ee, ec, ea, eg, es, dv, dw, de, dc, dg, ds, ext] =>
+  | [ek, ev, ew, ee, ec, ea, eg, es, dv, dw, de, dc, dg, ds, ext] =>
     let existing : Option (Stored Nat) :=
       if ek == 0 then none
       else if ek == 1 then some (.plain ((optVal ev).getD 0))
@@ -41,7 +42,7 @@ def tableCell (w : List String) : String :=
                          accessor := ea == 1, getterFunc := optFn eg, setterFunc := optFn es })
     let d : Desc Nat := { value := optVal dv, writable := flagOf dw, enumerable := flagOf de, configurable := flagOf dc,
                           getter := accOf dg, setter := accOf ds }
-    let res := defineOwn (fx == 1) 0 existing d (ext == 1)
+    let res := defineOwn 0 existing d (ext == 1)
     let inv := match existing with | some s => s.repInv | none => true
     let verdict :=
       if !d.wellFormed || !inv then "na"
@@ -84,13 +85,12 @@ def judgeCell (w : List String) : String :=
         if specOk && invOk then "ok" else if !specOk then "spec" else "repinv"
   | _ => "bad-line"
 
-/-- `J` line → `<impl = cur model><impl = fixed model> <spec verdict of the implementation result>` -/
+/-- `J` line → `<implementation result = transcription's result> <spec verdict of the implementation result>` -/
 def judgeCell2 (w : List String) : String :=
   let cell := w.take 15
   let rs := " ".intercalate (w.drop 15)
-  let c := (tableCell ("0" :: cell)).splitOn " ; " |>.headD ""
-  let f := (tableCell ("1" :: cell)).splitOn " ; " |>.headD ""
-  b01 (c == rs) ++ b01 (f == rs) ++ " " ++ judgeCell w
+  let c := (tableCell cell).splitOn " ; " |>.headD ""
+  b01 (c == rs) ++ " " ++ judgeCell w
 
 /-! ### sequence mode -/
 structure St where
@@ -185,6 +185,18 @@ def initProps (kind : String) : List (Key × SProp Nat) :=
   let ln := [(Key.str "length", SProp.data xv false false true), (Key.str "name", SProp.data xv false false true)]
   if kind == "arrow" || kind == "bound" then ln
   else if kind == "class" then ln ++ [(Key.str "prototype", SProp.data xv false false false)]
+  -- String exotic object `new String("ab")` (10.4.3) = ordinary object + the virtual index properties (theorem
+  -- `stringExotic_*` in Props): indices non-writable, enumerable, non-configurable; `length` frozen
+  else if kind == "strobj" then
+    [(Key.idx 0, SProp.data xv false true false), (Key.idx 1, SProp.data xv false true false),
+     (Key.str "length", SProp.data xv false false false)]
+  -- unmapped (strict) arguments object of f(101, 102) (10.4.4.6): an ORDINARY object with these own properties;
+  -- `callee` is the %ThrowTypeError% accessor (foreign function token: calling it throws), y3 = Symbol.iterator
+  else if kind == "sargs" then
+    [(Key.idx 0, SProp.data 101 true true true), (Key.idx 1, SProp.data 102 true true true),
+     (Key.str "length", SProp.data xv true false true),
+     (Key.str "callee", SProp.acc (some xv) (some xv) false false),
+     (Key.sym 3, SProp.data xv true false true)]
   else []
 
 def resTok (via : String) (ok : Bool) : String :=
@@ -208,13 +220,8 @@ def step (st : St) (line : String) : St × String :=
     let d : Desc Nat := { value := if dv == "-" then none else some (valOf dv), writable := flagTok dw,
                           enumerable := flagTok de, configurable := flagTok dc, getter := accTok dg, setter := accTok ds }
     let key := keyOf k
-    let cur := lookup (st.heap oi).props key
-    let kc := match cur with
-      | some (.data ..) => d.isAccessor
-      | some (.acc ..) => d.isData
-      | none => false
     let (h, ok) := sDefine 0 st.heap oi key d
-    finish { st with heap := h } (resTok via ok ++ (if kc then " !kind" else "")) (dump == "D")
+    finish { st with heap := h } (resTok via ok) (dump == "D")
   | ["set", via, o, k, v, r, dump] =>
     let oi := objOfTok o
     let recv := recvOf oi r
@@ -222,14 +229,16 @@ def step (st : St) (line : String) : St × String :=
     let res := match a with
       | .fail => resTok via false
       | .write .. => resTok via true
-      | .call f this arg => resTok via true ++ s!" s{f - 200}@{showRecv this}={showV arg}"
+      | .call f this arg =>
+        if f ≥ 5000 then "throw"                       -- %ThrowTypeError% (arguments.callee)
+        else resTok via true ++ s!" s{f - 200}@{showRecv this}={showV arg}"
     finish { st with heap := h } res (dump == "D")
   | ["get", via, o, k, r, dump] =>
     let oi := objOfTok o
     let recv := recvOf oi r
     let res := match sGet 0 st.heap (chainOf st.heap (fuelOf st) oi) (keyOf k) recv with
       | .val v => showV v
-      | .call f this => s!"r{f - 200} g{f - 200}@{showRecv this}"
+      | .call f this => if f ≥ 5000 then "throw" else s!"r{f - 200} g{f - 200}@{showRecv this}"
     finish st res (dump == "D")
   | ["del", via, o, k, dump] =>
     let oi := objOfTok o
